@@ -6,6 +6,7 @@
      argument_interpreter.get_path_score         get_path_score
      scope.all_definitions, _all_definitions     all_definitions (over Tree.obj)
      recursive_expert_level (in process_arg)     recursive_expert_level
+     target_locators (in process_arg)            dedupe / target_locators
      the body of the loop of process_arg         decide / decide_for
      the loop of process_arg over the source
        definitions of one argument               process_sources / process_arg_paths
@@ -122,6 +123,17 @@ Fixpoint parent_expert_level (chain : list (option Z)) : Z :=
 Definition recursive_expert_level (l : loc) : Z :=
   match lown l with Some e => e | None => parent_expert_level (lchain l) end.
 
+(* target_locators (process_arg): the locators of all_definitions() with later occurrences of an
+   already seen path dropped, the first occurrence kept; target_paths and expert_level are both
+   computed from this list, so they stay aligned *)
+Fixpoint dedupe (seen : list str) (l : list loc) : list loc :=
+  match l with
+  | [] => []
+  | x :: r => if mems (lpath x) seen then dedupe seen r else x :: dedupe (lpath x :: seen) r
+  end.
+Definition target_locators (master : obj) : res (list loc) :=
+  do locs <- all_definitions master; Ok (dedupe [] locs).
+
 (* ---------- list primitives of the decision: max(), list.count, list.index *)
 Fixpoint zmax (l : list Z) : option Z :=       (* None = ValueError: max() of an empty list *)
   match l with
@@ -143,27 +155,54 @@ Fixpoint best_matches (targets : list str) (scores : list Z) (m : Z) : list str 
   | _, _ => []
   end.
 
-(* The tie-break  score - (exp_lvl / 100)  is computed by Python in binary floating point
-   (true division).  The model compares the integers 100*score - exp_lvl instead.
-   Why that agrees:  x |-> fl(score - fl(e/100)) is monotone, and two values with different
-   integer keys differ by at least 0.01 in the reals, far above the rounding error (a few ulp
-   of a number of magnitude <= 8 + |e|/100) as long as |e| <= 2^40; so different keys give
-   floats ordered the same way.  Equal keys with equal scores mean equal levels, hence the very
-   same float computation.  Equal keys with *different* scores (e.g. 8 - 100/100 and 7 - 0/100,
-   or 1 - 101/100 and 0 - 1/100) can only occur when some level is outside 0..99; there the two
-   floats may differ in the last place (0 - 0.01 = -0.01 but 1 - 1.01 = -0.010000000000000009)
-   and the integer comparison is not faithful.  For levels in 0..99 and scores 0..8 agreement
-   was checked exhaustively (all 900 x 900 pairs).  For huge levels (beyond 2^53 or so)
-   neighbouring levels collapse to one float (Python then reports a tie the integers do not
-   have), and above about 1.8e310 the division raises OverflowError.
-   tiebreak_exact is the guard the entry point uses: outside it the model answers
-   "unmodelled" instead of guessing. *)
-Definition tb_key (p : Z * Z) : Z := 100 * fst p - snd p.
-Definition tiebreak_exact (scores levels : list Z) : bool :=
-  let ps := combine scores levels in
-  forallb (fun e => (0 <=? e) && (e <=? 99)) levels
-  || (forallb (fun e => (- (2 ^ 40) <=? e) && (e <=? 2 ^ 40)) levels
-      && forallb (fun p => forallb (fun q => negb (tb_key p =? tb_key q) || (fst p =? fst q)) ps) ps).
+(* The tie-break list is
+     [score - (exp_lvl / 100) if score == max_score else float("-inf") for ... in zip(scores, expert_level)]
+   Only positions holding the maximal score compete; the others hold -inf.  The model uses
+   option Z with None = -inf and Some (100*score - exp_lvl) for the competitors.
+   Float versus integer: all competitors have the same score m (1..8), so two competitors are
+   compared by fl(m - fl(e/100)) and fl(m - fl(e'/100)).  Equal levels: the very same float
+   computation, equal results.  Different levels: e/100 and e'/100 differ by at least 0.01 in the
+   reals while the rounding error is a few ulp of a number of magnitude <= 8 + |e|/100, i.e. below
+   2^-17 for |e| <= 2^40; so the floats are ordered as the integers -e, -e' are (spot-checked on
+   1.6 million random adjacent level pairs per score).  Every finite float is above -inf.  The
+   previous difficulty (equal integer keys at *different* scores rounding differently) cannot
+   occur any more, because different scores no longer compete.  What remains: for huge levels
+   (beyond about 2^53) neighbouring levels collapse to one float (Python reports a tie the
+   integers do not have) and above about 1.8e310 the division raises OverflowError - only for
+   competitors, the conditional expression does not evaluate the division elsewhere.
+   tiebreak_exact is the guard the entry point uses: when a competitor's level is outside
+   +-2^40 the model answers "unmodelled" instead of guessing. *)
+Definition tb_key (m : Z) (p : Z * Z) : option Z :=
+  if fst p =? m then Some (100 * fst p - snd p) else None.
+Definition tiebreak_exact (scores levels : list Z) (m : Z) : bool :=
+  forallb (fun p => negb (fst p =? m) || ((- (2 ^ 40) <=? snd p) && (snd p <=? 2 ^ 40)))
+          (combine scores levels).
+
+(* max / count / index on the tie-break list (None = -inf is below every Some) *)
+Definition oltb (a b : option Z) : bool :=
+  match a, b with
+  | None, Some _ => true
+  | Some x, Some y => x <? y
+  | _, None => false
+  end.
+Definition oeqb (a b : option Z) : bool :=
+  match a, b with
+  | None, None => true
+  | Some x, Some y => x =? y
+  | _, _ => false
+  end.
+Fixpoint omax (l : list (option Z)) : option (option Z) :=    (* outer None = ValueError *)
+  match l with
+  | [] => None
+  | x :: r => match omax r with None => Some x | Some m => Some (if oltb m x then x else m) end
+  end.
+Fixpoint ocount (x : option Z) (l : list (option Z)) : nat :=
+  match l with [] => 0%nat | y :: r => (if oeqb y x then S (ocount x r) else ocount x r) end.
+Fixpoint oindex (x : option Z) (l : list (option Z)) : option nat :=
+  match l with
+  | [] => None
+  | y :: r => if oeqb y x then Some 0%nat else option_map S (oindex x r)
+  end.
 
 Inductive decision :=
   | Unknown                                   (* Sorry "Unknown ... parameter definition" *)
@@ -172,29 +211,33 @@ Inductive decision :=
 
 (* body of the for-loop of process_arg for one source definition, given the score list.
    zip() truncates to the shorter list (combine does the same). *)
-Definition pick (targets : list str) (l : list Z) (m : Z) (warn : bool) : res decision :=
-  match zindex m l with
+Definition pick_at (targets : list str) (oi : option nat) (warn : bool) : res decision :=
+  match oi with
   | None => Crash (s_ "ValueError")                      (* list.index: not in list *)
   | Some i => match nth_error targets i with
               | None => Crash (s_ "IndexError")
               | Some t => Ok (Chosen i t warn) end
   end.
+Definition pick (targets : list str) (l : list Z) (m : Z) (warn : bool) : res decision :=
+  pick_at targets (zindex m l) warn.
 
 (* max(scores, default=0): an empty list gives 0 (no ValueError) *)
 Definition zmax_default0 (l : list Z) : Z := match zmax l with None => 0 | Some m => m end.
+
+(* the tie-break: second max(), count, index on the list with -inf for non-competitors *)
+Definition tiebreak (targets cands : list str) (keys : list (option Z)) : res decision :=
+  match omax keys with
+  | None => Crash (s_ "ValueError")                       (* the second max() has no default *)
+  | Some m2 =>
+      if (1 <? ocount m2 keys)%nat then Ok (Ambiguous cands)
+      else pick_at targets (oindex m2 keys) true
+  end.
 
 (* the loop body after max_score has been computed *)
 Definition decide_at (targets : list str) (levels scores : list Z) (m : Z) : res decision :=
   if m =? 0 then Ok Unknown
   else if (1 <? zcount m scores)%nat then
-    let cands := best_matches targets scores m in
-    let keys := map tb_key (combine scores levels) in
-    match zmax keys with
-    | None => Crash (s_ "ValueError")                       (* the second max() has no default *)
-    | Some m2 =>
-        if (1 <? zcount m2 keys)%nat then Ok (Ambiguous cands)
-        else pick targets keys m2 true
-    end
+    tiebreak targets (best_matches targets scores m) (map (tb_key m) (combine scores levels))
   else pick targets scores m false.
 
 Definition decide (targets : list str) (levels scores : list Z) : res decision :=
@@ -231,7 +274,7 @@ Fixpoint process_sources (home : option str) (targets : list str) (levels : list
 
 Definition process_arg_paths (home : option str) (master : obj) (sources : list str)
   : list str * ending :=
-  match all_definitions master with
+  match target_locators master with
   | Ok locs =>
       process_sources home (map lpath locs) (map recursive_expert_level locs) sources [] []
   | UErr _ _ _ => ([], ECrash (s_ "unreachable"))
